@@ -26,7 +26,7 @@ tvars == <<tid, l, bad, vars>>
 R == Batch[tid]
 O == R.obs
 CfgOf(r) == [api |-> r.cfg.api, expect |-> r.cfg.expect, sys |-> r.cfg.sys, usr |-> r.cfg.usr,
-             policy |-> r.cfg.policy, port |-> r.cfg.port, server |-> Range(r.cfg.server), gss |-> r.cfg.gss,
+             policy |-> r.cfg.policy, port |-> r.cfg.port, server |-> Range(r.cfg.server), gss |-> r.cfg.gss, loaded |-> r.cfg.loaded,
              prev |-> [i \in DOMAIN r.cfg.prev |-> [port |-> r.cfg.prev[i].port, server |-> Range(r.cfg.prev[i].server)]]]
 TInit == /\ tid \in 1..Len(Batch) /\ l = 1 /\ bad = {}
          /\ cfg = CfgOf(R)
